@@ -510,6 +510,16 @@ func (e *Engine) loadField(st *State, p string, structT types.Type, fname string
 	h := e.heapGet(st, hn, srt)
 	tm := sx("select", h, p)
 	e.assume("true", e.rangeFact(tm, ft))
+	if e.c != nil && e.c.Opts["nonnilfields"] != "" {
+		// assumed of the data (`opt nonnilfields F...`): pointer fields with these names are never nil in memory
+		if _, isPtr := types.Unalias(ft).Underlying().(*types.Pointer); isPtr {
+			for _, n := range strings.Fields(e.c.Opts["nonnilfields"]) {
+				if n == fname {
+					e.assume("true", e.lt(e.izero(), tm))
+				}
+			}
+		}
+	}
 	v := Value{tm, ft}
 	e.refBoundHeap(st, v)
 	return v
@@ -924,6 +934,11 @@ func (e *Engine) evTypeAssert(x *ast.TypeAssertExpr, st *State, commaOk bool) (V
 		return Value{ite(ok, v.T, e.zero(t).T), t}, ok
 	}
 	u := e.unbox(v.T, t)
+	if _, isPtr := types.Unalias(t).Underlying().(*types.Pointer); isPtr && e.c != nil && e.c.Opts["typednil"] != "" && e.bound == 0 {
+		// typedNil(v) holds exactly when the pointer held by v is nil (ground instance for this assertion)
+		e.declareFun("tnil", []string{"Ifc"}, "Bool")
+		e.assumes = append(e.assumes, implies(ok, eq(sx("tnil", v.T), eq(u.T, e.izero()))))
+	}
 	return Value{ite(ok, u.T, e.zero(t).T), t}, ok
 }
 
